@@ -23,6 +23,8 @@ CONSTANTS Operands,     \* set of integer literals
           Pres,         \* subset of {"", "not", "neg"}: prefixes allowed on an operand
           MaxOps,       \* maximal number of binary operators in one expression
           LongOperands, LongOps, LongPres,   \* what an expression with more than two operators is built from
+          ChainPairwise,   \* FALSE: comparison chains as repaired in /repo (a < b == c is a < b and b == c);
+                        \* TRUE only in *_known cfgs: each comparison is applied to the previous boolean result
           RightTakesRest,  \* FALSE: interpretOps as repaired in /repo (the right operand is the run of tighter operators);
                         \* TRUE only in *_known cfgs: everything after an operator goes to its right operand
           GoRemainder,  \* FALSE: the algorithm model takes % as repaired in /repo (ad24364, Python's sign rule);
@@ -177,13 +179,20 @@ AClimb(obj, ops) ==
            tighter == SubSeq(ops, 2, n - 1)
            rest == SubSeq(ops, n, Len(ops))
            lazy == op.op \in {"and", "or"}
+           chain == ~ChainPairwise /\ op.op \in CmpOps /\ rest # <<>> /\ rest[1].op \in CmpOps
+           operand == AClimb(I(op.v), tighter)
+           cres == ABin(op.op, obj, operand)
+           \* a false link ends the chain: everything that binds at least as tightly as a comparison is skipped
+           afterChain == SubSeq(rest, TightRun(rest, Prec(op.op) - 1, 1), Len(rest))
            res == IF tighter = <<>> THEN AInterpOp(obj, op)
                   ELSE IF lazy /\ Truthy(obj) # (op.op = "and") THEN obj
                   ELSE IF op.un THEN AInterpOp(AClimb(obj, tighter), op)
                   ELSE LET nobj == AClimb(I(op.v), tighter) IN
                        IF lazy THEN (IF IsErr(nobj) THEN nobj ELSE IF Truthy(obj) = (op.op = "and") THEN nobj ELSE obj)
                        ELSE ABin(op.op, obj, nobj)
-       IN AClimb(res, rest)
+       IN IF chain THEN (IF IsErr(operand) THEN operand ELSE IF IsErr(cres) THEN cres
+                         ELSE IF Truthy(cres) THEN AClimb(operand, rest) ELSE AClimb(cres, afterChain))
+          ELSE AClimb(res, rest)
 AInterpOps(obj, ops) == IF RightTakesRest THEN AInterpOpsOld(obj, ops) ELSE AClimb(obj, ops)
 AEval(s) == IF AOps(s) = <<>> THEN I(s[1].v) ELSE AInterpOps(I(s[1].v), AOps(s))
 
@@ -200,7 +209,7 @@ ModSign(s) == LET ts == Split(s, AllOps \ MulOps) IN
 
 ClassOf(s, py, al) == IF py = al THEN "agree"
                       ELSE IF RightTakesRest /\ LoHiLo(s) THEN "lo-hi-lo"
-                      ELSE IF ChainCmp(s) THEN "chain-cmp"
+                      ELSE IF ChainPairwise /\ ChainCmp(s) THEN "chain-cmp"
                       ELSE IF GoRemainder /\ ModSign(s) THEN "mod-sign"
                       ELSE "other"
 Class(s) == ClassOf(s, PyEval(s), AEval(s))
@@ -225,7 +234,7 @@ Spec == Init /\ [][Next]_vars
 \* property allows.
 Agreement == LET py == PyEval(e)
                  al == AEval(e) IN
-             (~IsErr(al) /\ ~IsErr(py) /\ (RightTakesRest => ~LoHiLo(e)) /\ ~ChainCmp(e) /\ ~(GoRemainder /\ ModSign(e))) => al = py
+             (~IsErr(al) /\ ~IsErr(py) /\ (RightTakesRest => ~LoHiLo(e)) /\ (ChainPairwise => ~ChainCmp(e)) /\ ~(GoRemainder /\ ModSign(e))) => al = py
 \* sanity of the transcription: floor division and modulo obey the division identity with Python's sign rule
 ASSUME DivIdentity == \A a \in Operands, b \in Operands \ {0} : /\ a = b * FloorDiv(a, b) + PyMod(a, b)
                                                                 /\ (b > 0 => PyMod(a, b) \in 0..(b - 1))
@@ -247,7 +256,7 @@ Show(v) == IF v.k \in {"err", "gar"} THEN [k |-> v.k] ELSE IF v.k = "bool" THEN 
 \* one pass per state: the relation between the levels, then the case
 CheckAndEmit == LET py == PyEval(e)
                     al == AEval(e) IN
-                /\ (~IsErr(al) /\ ~IsErr(py) /\ (RightTakesRest => ~LoHiLo(e)) /\ ~ChainCmp(e) /\ ~(GoRemainder /\ ModSign(e))) => al = py
+                /\ (~IsErr(al) /\ ~IsErr(py) /\ (RightTakesRest => ~LoHiLo(e)) /\ (ChainPairwise => ~ChainCmp(e)) /\ ~(GoRemainder /\ ModSign(e))) => al = py
                 /\ Emit =>
                     PrintT(<<"CASE", ToJson([toks |-> e, expect |-> Show(py), algo |-> Show(al),
                                              cls |-> ClassOf(e, py, al)])>>)
